@@ -880,6 +880,33 @@ func c16Tasks(tier string) []mc.Task {
 			}})
 		}
 	}
+	// SeqBag.LongestORF where ORF lengths, ORF end coordinates and sequence lengths are in every order: a
+	// short ORF behind a 5' flank of 0..12 bases (so that it ENDS far into its sequence) next to a longer or
+	// shorter ORF in a sequence with small flanks, on either strand, in both orders and with a third sequence
+	ts = append(ts, mc.Task{Name: "bagorf#offsets", Run: func(c *mc.Ctx) {
+		for f := 0; f <= 12; f++ {
+			for k := 0; k <= 2; k++ {
+				first := strings.Repeat("C", f) + "ATG" + strings.Repeat("CCC", k) + "TAA"
+				for m := 0; m <= 5; m++ {
+					for g := 0; g <= 3; g++ {
+						for tl := 0; tl <= 2; tl++ {
+							second := strings.Repeat("G", g) + "ATG" + strings.Repeat("GCC", m) + "TGA" + strings.Repeat("C", tl)
+							for _, sec := range []string{second, c08RevComp(second)} {
+								for _, rev := range []bool{false, true} {
+									c16CheckBagOrf(c, c16Case{Kind: "bagorf", Seqs: []string{first, sec}, Reverse: rev})
+									c16CheckBagOrf(c, c16Case{Kind: "bagorf", Seqs: []string{sec, first}, Reverse: rev})
+									c16CheckBagOrf(c, c16Case{Kind: "bagorf", Seqs: []string{"CCCCCCCCCCCCCCCC", first, sec}, Reverse: rev})
+								}
+							}
+						}
+					}
+				}
+			}
+			if c.Expired() {
+				return
+			}
+		}
+	}})
 	// unusual symbols: inputs are left as they were.  Every sequence ATG+x+TAA / its reverse complement with x
 	// over {A,U,c,X,N,?}^(0..3), alone and next to an ordinary ORF, both strand settings
 	ts = append(ts, mc.Task{Name: "unmod#symbols", Run: func(c *mc.Ctx) {
@@ -1024,7 +1051,7 @@ func init() {
 		Level: "model_checking",
 		Rule: "Command line: goalign phase and phasent (one thread) on 4 sequence sets x reference given / detected x --reverse x --cut-end x genetic code x 7 sets of given flags among --len-cutoff, --match-cutoff, --match, --mismatch, --gap-open, --gap-extend, and goalign orf (--reverse) on 7 sets: the files written must be those of the library configured the same way (documented defaults for flags not given). " + "schedule part: stateless DFS over all interleavings of the real Phase goroutines (sequence producer, cpus workers, closer, consuming harness thread) with iterative preemption bounds 0..2 (quick) / 0..3 (thorough), 3 sequences x cpus 1..3 x {translate, nt}; error path with an untranslatable sequence in each position; no reference + a sequence without similarity. " +
 			"function-entry part: 2 sequences, 2 workers, translate on/off, every function entry of goalign (functions of >= 4 statements) an additional scheduling point, preemption bound 1. " +
-			"input part: LongestORF on all sequences of length <=9 (quick) / <=11 (thorough) over {A,T,G,C} plus a family of overlapping-frame sequences (upper/lower case, U) and every concatenation of up to 7 (thorough 8) codon tokens from {ATG,TAA,TGA,AAA,C} against a brute-force scan; SeqBag.LongestORF on pairs; inputs unmodified by the ORF search (both strands) and by Phase without reference on sequences holding U, lower case, X, N, ? ; a reference with codons that read differently under the three codes x translate on/off; Phase on ORF copies with 5 five-prime flanks x (exact | 18 single substitutions | reverse complement) x 3 three-prime flanks, alone / with a no-similarity sequence / in a set of 3, x translate x reverse x cut-end x genetic codes x reference supplied or not; two references in both orders against sequences that open with a 5'-truncated piece of one and contain the other verbatim (and truncated piece forward + whole ORF on the reverse strand). " +
+			"input part: LongestORF on all sequences of length <=9 (quick) / <=11 (thorough) over {A,T,G,C} plus a family of overlapping-frame sequences (upper/lower case, U) and every concatenation of up to 7 (thorough 8) codon tokens from {ATG,TAA,TGA,AAA,C} against a brute-force scan; SeqBag.LongestORF on pairs, and on sets where a short ORF behind a 5' flank of 0..12 bases stands before/after a sequence holding an ORF of 0..5 inner codons with flanks of 0..3 / 0..2 bases on either strand (ORF lengths, ORF end coordinates and sequence lengths in every order); inputs unmodified by the ORF search (both strands) and by Phase without reference on sequences holding U, lower case, X, N, ? ; a reference with codons that read differently under the three codes x translate on/off; Phase on ORF copies with 5 five-prime flanks x (exact | 18 single substitutions | reverse complement) x 3 three-prime flanks, alone / with a no-similarity sequence / in a set of 3, x translate x reverse x cut-end x genetic codes x reference supplied or not; two references in both orders against sequences that open with a 5'-truncated piece of one and contain the other verbatim (and truncated piece forward + whole ORF on the reverse strand). " +
 			"distinct_nontrivial counts distinct (case, schedule) executions plus input cases whose result was fully compared.",
 		Assumptions: []string{
 			"results flagged Removed (discarded by the cut-offs) are only counted, their framing is not compared",
